@@ -65,3 +65,8 @@ package isaac
 //@   prop C07
 //@   requires f != nil
 //@   ensures [sorted] r2 == nil && r1 ==> len(r0) >= 1 && forall(i, j, 0 <= i && i < j && j < len(r0) ==> !(r0[j].Address().String() < r0[i].Address().String()))
+
+//@ func NewSuffrageFromState
+//@   trusted
+//@   pure
+//@   ensures r1 == nil ==> snd(base.LoadSuffrageNodesStateValue(st)) == nil
